@@ -1,6 +1,6 @@
 (* C09 property theorems (UintVecMin0).  Statements + exact + Print Assumptions only. *)
-From ZV.Common Require Import Base.
-From ZV.C09 Require Import Model ProofsBits ProofsVec.
+From ZV.Common Require Import Base Run.
+From ZV.C09 Require Import Model ProofsBits ProofsVec ModelSorted Cases.
 Open Scope N_scope.
 
 (* a field of any supported width never straddles the 64-bit load window *)
